@@ -57,7 +57,8 @@ func unsafeRandString(n int) string {
 // parserRequestURL sets options for the hostclient and normalizes the URL.
 // It merges the baseURL with the request URI if needed and applies query and path parameters.
 func parserRequestURL(c *Client, req *Request) error {
-	splitURL := strings.Split(req.url, "?")
+	// Only the first '?' separates the path from the query; further ones belong to the query.
+	splitURL := strings.SplitN(req.url, "?", 2)
 	// Ensure splitURL has at least two elements.
 	splitURL = append(splitURL, "")
 
